@@ -135,8 +135,9 @@ func GenGJ(t *rapid.T, o GeomOpts) GJ {
 			g.Geoms[i] = GenGJ(t, sub)
 		}
 	case "Bounds":
-		a, b := MkP(o.Coord.Draw(t, "x"), o.Coord.Draw(t, "y")), MkP(o.Coord.Draw(t, "x"), o.Coord.Draw(t, "y"))
-		g.Pts = []P2{a, b}
+		// a proper box: Min <= Max on both axes
+		x1, y1, x2, y2 := o.Coord.Draw(t, "x"), o.Coord.Draw(t, "y"), o.Coord.Draw(t, "x"), o.Coord.Draw(t, "y")
+		g.Pts = []P2{MkP(math.Min(x1, x2), math.Min(y1, y2)), MkP(math.Max(x1, x2), math.Max(y1, y2))}
 	}
 	return g
 }
